@@ -119,6 +119,7 @@ def handle_search(job):
                 wbase = wn.Wordnet(scope)
                 lems = {'none': None, 'custom': custom_lemmatizer, 'morphy_u': Morphy(),
                         'morphy_i': Morphy(wbase)}
+                shared = {}
                 for kind, form, pos, norm_on, saf, lemkind in case['queries']:
                     pa = None if pos == '~' else pos
                     kw = {} if norm_on else {'normalizer': None}
@@ -129,6 +130,23 @@ def handle_search(job):
                     strings.add(form)
                     try:
                         res = getattr(w, kind)(form, pos=pa)
+                        o['calls'].append([kind, form, pos, norm_on, saf, lemkind, cands,
+                                           'ok', [f'{x.lexicon().id}|{x.id}' for x in res]])
+                    except JobTimeout:
+                        raise
+                    except Exception as e:
+                        o['calls'].append([kind, form, pos, norm_on, saf, lemkind, cands,
+                                           'exc:' + exc_name(e), []])
+                    # the same query through one long-lived Wordnet per (normalizer, all-forms)
+                    # setting whose public `lemmatizer' attribute is assigned before each
+                    # query (the documented way to install Morphy(wordnet)): what was asked of
+                    # the object under another lemmatizer must not matter
+                    key_ = (norm_on, saf)
+                    if key_ not in shared:
+                        shared[key_] = wn.Wordnet(scope, search_all_forms=saf, **kw)
+                    shared[key_].lemmatizer = lems[lemkind]
+                    try:
+                        res = getattr(shared[key_], kind)(form, pos=pa)
                         o['calls'].append([kind, form, pos, norm_on, saf, lemkind, cands,
                                            'ok', [f'{x.lexicon().id}|{x.id}' for x in res]])
                     except JobTimeout:
@@ -202,6 +220,7 @@ def handle(job):
                 w = wn.Wordnet(f'{lid}:1')
                 mi = Morphy(w)
                 mu = Morphy()
+                ws = wn.Wordnet(f'{lid}:1', normalizer=None)
                 for form, pos in case['queries']:
                     pa = None if pos == '~' else pos
                     for init, m in ((True, mi), (False, mu)):
@@ -212,6 +231,12 @@ def handle(job):
                             wl = wn.Wordnet(f'{lid}:1', lemmatizer=m, normalizer=None)
                             row.append(sorted([x.pos, str(x.lemma())] for x in wl.words(form, pos=pa)))
                             o['calls'].append(row)
+                            # ... and one long-lived Wordnet whose lemmatizer attribute is
+                            # assigned (w.lemmatizer = Morphy(w), as documented), asked in turn
+                            # under the initialized and the uninitialized Morphy
+                            ws.lemmatizer = m
+                            o['calls'].append(row[:5] + [sorted(
+                                [x.pos, str(x.lemma())] for x in ws.words(form, pos=pa))])
                         except JobTimeout:
                             raise
                         except Exception as e:
